@@ -44,13 +44,14 @@ def unused_bits(su):
     return out
 
 
-def gen_case(rng, i, su, npk):
+def gen_case(rng, i, su, npk, modes=None, jfix=None):
     ops = ["case %d" % i, "new", "hdr 1 %s" % vlib.hexs(G.ident(su["channels"], rng.choice([8000, 44100, 96000]), su["b0"], su["b1"])),
            "hdr 0 %s" % vlib.hexs(G.comment()), "hdr 0 %s" % vlib.hexs(su["trace"].pack()), "init"]
     flags = su["flags"]
     ubits = unused_bits(su)
     mb = G.ilog(len(flags) - 1)
-    modes = [rng.randrange(len(flags)) for _ in range(npk + 1)]
+    if modes is None:
+        modes = [rng.randrange(len(flags)) for _ in range(npk + 1)]
     size = 1500 * su["channels"] * max(1, (1 << su["b1"]) // 256)
     for k in range(npk):
         m = modes[k]
@@ -68,6 +69,8 @@ def gen_case(rng, i, su, npk):
         # bits), so that patterns such as "only the last channel has a floor" occur — what the coupling steps do with them is part of the format
         ub = ubits[m] if m < len(ubits) else []
         j = rng.choice([0, 0] + list(range(len(ub) + 1)))            # the first j channels without a floor
+        if jfix is not None and rng.random() < 0.6:
+            j = min(jfix, len(ub))
         z = sum(x or 0 for x in ub[:j])
         one = 1 if (j < len(ub) and rng.random() < 0.7) else rng.getrandbits(1)   # ... and the next one with (floor 1: flag set; floor 0: low amplitude bit)
         head = (bits | (one << (nb + z)) | (rng.getrandbits(128) << (nb + z + 1))).to_bytes(32, "little")
